@@ -54,6 +54,19 @@ prop('C07', engine='storesim', profiles={'quick': [('c07', 2400)], 'thorough': [
           'flags, has_data and run invocations vs model; non-trivial = at least one forced task actually re-ran')
 
 
+prop('C18', engine='storesim', profiles={'quick': [('c18', 2400)], 'thorough': [('c18', 60000)]}, level='exploration',
+     nontrivial=lambda r: r['stats'].get('records_checked', 0) > 0 and (r['stats'].get('runfaults', 0) > 0 or r['stats'].get('forced_runs', 0) > 0),
+     rule='histories mixing successful runs, failing runs (own or upstream), retries in the same chain / a new chain of the same process / a new process, '
+          'forced recomputations; every run writes unique markers to its log and run info; run_info and log inspected after each step against the model record '
+          'of the run that produced the stored result (simulated clock identifies the run); non-trivial = records were checked after a failure or a forced rerun')
+prop('C12', engine='storesim', profiles={'quick': [('c12', 1600)], 'thorough': [('c12', 40000)]}, level='exploration',
+     nontrivial=lambda r: r['stats'].get('loads', 0) > 0,
+     assumptions=['"earlier version" = verbatim copy of the pinned release-1.4.0 source under /verif/golden, run in its own simulated processes (real code, no stub); '
+                  'its operations are not judged, only what it leaves in the store'],
+     rule='mixed-version histories: processes running the frozen release-1.4.0 tree compute and persist results of generated pipelines (groups: none/single/'
+          'multi-level/module-derived; namespaces; every data class; JSON-like/placeholder/parameter-object values; parameter and name mode), then processes '
+          'running the current tree with another hash seed must report has_data, load equal values with zero runs, use the documented layout and find run info/log '
+          'beside the result; non-trivial = at least one result stored by the old tree was loaded by the current one')
 prop('C13', engine='storesim', profiles={'quick': [('c13', 2400)], 'thorough': [('c13', 60000)]}, level='exploration',
      nontrivial=lambda r: r['stats'].get('mem_shared_multichain', 0) > 0 or r['stats'].get('forced_runs', 0) > 0,
      rule='MultiChains over 2-4 generated roots (overlapping pipelines, differing parameters/contexts/namespaces), requests and MultiChain.force '
